@@ -286,7 +286,7 @@ PROPS = {
             "BPT.Props.C14.rejects_dangling_reference", "BPT.Props.C14.rejects_bad_leaf", "BPT.Props.C14.rejects_bad_branch",
             "BPT.Props.C14.rejects_underfull", "BPT.Props.C14.rejects_out_of_interval",
             "BPT.Props.C14.detailed_sound_partial", "BPT.Props.C14.detailed_rejects_what_basic_rejects",
-            "BPT.Props.C14.detailed_sound", "BPT.Props.C14.rejects_chain_damage", "BPT.Props.C14.rejects_unreachable_node",
+            "BPT.Props.C14.detailed_sound", "BPT.Props.C14.api_built_caps_intact", "BPT.Props.C14.rejects_chain_damage", "BPT.Props.C14.rejects_unreachable_node",
             "BPT.Props.C14.rejects_orphan_leaf", "BPT.Props.C14.checked_mutators_refuse", "BPT.Props.C14.checked_mutators_leave_unchanged", "BPT.Rust.leafIdsFrom_ok", "BPT.Rust.chainIds_nodup", "BPT.Rust.items_along_chain",
             "BPT.Rust.chain_eq_tree", "BPT.Rust.branchIds_nodup", "BPT.Rust.branches_reachable",
             "BPT.Props.C14.Legacy.validator_accepts_empty_leaf",
